@@ -8,7 +8,19 @@ S = "server.BaseWSGIServer"
 CHM = "model.ReapChannel"
 
 
+def maint_calls(eng):
+    return VInt(eng.state.ghost.get("maint_calls", 0))
+
+
+def clock(eng):
+    return VInt(eng.state.ghost.get("clock", 0))
+
+
 class ServerHook:
+    def on_call(self, eng, qual=None, args=None, kwargs=None, node=None, frame=None):
+        if qual.endswith(".maintenance"):
+            eng.state.ghost["maint_calls"] = eng.state.ghost.get("maint_calls", 0) + 1
+
     """C18 reap guard: every write of will_close on a channel inside maintenance() happens for a channel with no request in
     progress whose last activity is older than the cutoff."""
     def on_attr_write(self, eng, obj=None, field=None, val=None, node=None):
@@ -26,6 +38,7 @@ def install(reg):
     from contracts import adj
     adj.install(reg)
     reg.install_std_specs()
+    reg.spec_funcs.update({"maint_calls": maint_calls, "clock": clock})
     reg.add_class(ClassSpec(CHM, fields={"requests": ListOf(Opaque("request")), "last_activity": Int, "will_close": Bool}))
     reg.add_class(ClassSpec(S, fields={"next_channel_cleanup": Int, "adj": Obj("adjustments.Adjustments"), "accepting": Bool, "in_connection_overflow": Bool,
                                        "_map": ListOf(Opaque("dispatcher")), "active_channels": Opaque("channels")}))
@@ -36,7 +49,9 @@ def install(reg):
         ensures=[("C18-admission-only-below-the-limit", "implies(result, self.accepting and len(self._map) < self.adj.connection_limit)"),
                  ("C18-accepting-resumes-below-the-limit", "implies(self.accepting and len(self._map) < self.adj.connection_limit, result)"),
                  ("C18-overflow-flag-tracks-the-limit", "implies(self.accepting, self.in_connection_overflow == (len(self._map) >= self.adj.connection_limit))"),
-                 ("map-untouched", "len(self._map) == old(len(self._map))")],
+                 ("map-untouched", "len(self._map) == old(len(self._map))"),
+                 ("C18-maintenance-runs-whenever-it-is-due", "implies(clock() >= old(self.next_channel_cleanup), maint_calls() == 1)"),
+                 ("C18-next-cleanup-scheduled", "implies(clock() >= old(self.next_channel_cleanup), self.next_channel_cleanup == clock() + self.adj.cleanup_interval)")],
         modifies=["self.next_channel_cleanup", "self.in_connection_overflow"]))
     install_accept(reg)
 
